@@ -264,6 +264,49 @@ def gen_p2d(ctx, rng):
     return {'f': 'p2d', 'kind': kind, 'src_dec': src_dec, 'src_ra': src_ra, 'psi': psi, 't': t}
 
 
+def clampdec(d):
+    return min(max(d, -HALFPI), HALFPI)
+
+
+def gen_rses_group(ctx, rng, gid, size=None):
+    """one call of rotate_signal_events_on_sphere: a batch of events.  The batch kinds with ALL true directions
+    next to the source matter: a shortcut taken for the whole batch (np.allclose) only shows there."""
+    gkind = rng.choice(['mixed', 'mixed', 'all-near-1e-5', 'all-near-1e-9', 'all-identical', 'single', 'one-source'])
+    n = 1 if gkind == 'single' else (size or rng.choice([2, 3, 8, 20]))
+    out = []
+    src0 = rnd_dir(rng)
+    for _ in range(n):
+        (sra, sdec) = src0 if gkind == 'one-source' else rnd_dir(rng)
+        if abs(sdec) != HALFPI and HALFPI - abs(sdec) < 1e-5:
+            sdec = math.copysign(HALFPI - 1e-5, sdec)          # 0 < cos(dec) < 1e-12 is astropy's approximate pole branch
+        k = gkind
+        if gkind in ('mixed', 'single', 'one-source'):
+            k = rng.choice(['generic', 'generic', 'near-1e-5', 'near-1e-9', 'identical', 'antipodal', 'true-at-pole'])
+        if k in ('all-near-1e-5', 'near-1e-5'):
+            tra, tdec = sra + 1e-5 * rng.uniform(-1, 1) * max(abs(sra), 0.1), sdec + 1e-5 * rng.uniform(-1, 1) * max(abs(sdec), 0.1)
+        elif k in ('all-near-1e-9', 'near-1e-9'):
+            tra, tdec = sra + 1e-9 * rng.uniform(-1, 1), sdec + 1e-9 * rng.uniform(-1, 1)
+        elif k in ('all-identical', 'identical'):
+            tra, tdec = sra, sdec
+        elif k == 'antipodal':
+            tra, tdec = sra + PI, -sdec
+        elif k == 'true-at-pole':
+            tra, tdec = rng.uniform(0, TWOPI), rng.choice([HALFPI, -HALFPI])
+        else:
+            tra, tdec = rnd_dir(rng)
+        tdec = clampdec(tdec)
+        sc = 10 ** rng.uniform(-9, 0.3)
+        ph = rng.uniform(0, TWOPI)
+        rra, rdec = tra + sc * math.sin(ph) / max(math.cos(tdec), 1e-2), clampdec(tdec + sc * math.cos(ph))
+        if k == 'identical' and rng.random() < 0.3:
+            rra, rdec = tra, rng.choice([HALFPI, -HALFPI])       # the rotated direction is a pole
+        ctx.count('rses:' + k)
+        out.append({'f': 'rses', 'kind': k, 'group': gid, 'src_ra': sra, 'src_dec': sdec, 'true_ra': tra,
+                    'true_dec': tdec, 'reco_ra': rra, 'reco_dec': rdec})
+    ctx.count('rses-batch:' + gkind)
+    return out
+
+
 def malformed_cases():
     nan, inf = float('nan'), float('inf')
     out = []
@@ -273,6 +316,8 @@ def malformed_cases():
         out.append({'f': 'a2r', 'kind': 'malformed', 'azi': bad, 'zen': 0.5, 'mjd': 58000.0})
         out.append({'f': 'a2r', 'kind': 'malformed', 'azi': 0.5, 'zen': bad, 'mjd': bad})
         out.append({'f': 'p2d', 'kind': 'malformed', 'src_dec': 0.2, 'src_ra': 1.0, 'psi': bad, 't': 1.0})
+        out.append({'f': 'rses', 'kind': 'malformed', 'group': -2 - len(out), 'src_ra': 1.0, 'src_dec': 0.2, 'true_ra': bad,
+                    'true_dec': 0.1, 'reco_ra': 1.0, 'reco_dec': 0.3})
         out.append({'f': 'rot', 'kind': 'malformed', 'ra1': bad, 'dec1': 0.1, 'ra2': 1.0, 'dec2': 0.2, 'ra3': 2.0, 'dec3': 0.3})
     return out
 
@@ -305,6 +350,16 @@ def corpus_cases():
     # open finding: exactly antipodal true/source pair, reco = true should land on the source
     out.append({'f': 'rot', 'kind': 'corpus-antipodal', 'ra1': 1.0, 'dec1': 0.5, 'ra2': 1.0 + PI, 'dec2': -0.5,
                 'ra3': 1.0, 'dec3': 0.5})
+    # a whole batch of true directions within np.allclose of the source (shortcut candidates), reco 1e-3 away
+    for i in range(4):
+        out.append({'f': 'rses', 'kind': 'corpus-all-near', 'group': -1, 'src_ra': 1.0, 'src_dec': 0.5,
+                    'true_ra': 1.0 + 1e-5 * (i + 1), 'true_dec': 0.5 - 2e-6 * (i + 1), 'reco_ra': 1.0 + 1e-3 * (i + 1),
+                    'reco_dec': 0.5 + 7e-4 * (i - 1.5)})
+    # open finding: destination exactly at the pole -> astropy takes arcsin(1 + ulp) = NaN
+    for (a, b) in ((5.792200979058819, -0.3433245192852074), (0.17346625885636222, -0.32503212338975546),
+                   (1.7491562850383493, -0.12057143314450967)):
+        out.append({'f': 'rses', 'kind': 'corpus-nan-at-pole', 'group': -100 - len(out), 'src_ra': a, 'src_dec': b, 'true_ra': a,
+                    'true_dec': b, 'reco_ra': a, 'reco_dec': HALFPI})
     # special-angle grid for the separation (poles, equator, quadrants, both ends of the RA range)
     ras = [0.0, HALFPI, PI, 3 * HALFPI, math.nextafter(TWOPI, 0.0)]
     decs = [-HALFPI, -PI / 4, 0.0, PI / 4, HALFPI]
@@ -481,6 +536,78 @@ def pred_rot(ctx, c, ra, dec):
                       case=c, impl=[ra, dec], model=want, predicate='sep(R reco, source) == sep(reco, true)')
 
 
+def run_rses(ctx, cases, lines, checks):
+    from skyllh.core.utils.coords import rotate_signal_events_on_sphere
+    groups = {}
+    for c in cases:
+        groups.setdefault(c.get('group', 0), []).append(c)
+    keys = ('src_ra', 'src_dec', 'true_ra', 'true_dec', 'reco_ra', 'reco_dec')
+    for gid, grp in groups.items():
+        args = [arr(grp, k) for k in keys]
+        before = [a.tobytes() for a in args]
+        try:
+            with np.errstate(all='ignore'):
+                (ra, dec) = rotate_signal_events_on_sphere(*args)
+            ra, dec = np.asarray(ra, dtype=np.float64), np.asarray(dec, dtype=np.float64)
+            assert ra.shape == dec.shape == (len(grp),), (ra.shape, dec.shape)
+        except Exception as ex:
+            if all(finite(*(c[k] for k in keys)) for c in grp):
+                ctx.violation('rotate_signal_events_on_sphere', 'raises-' + type(ex).__name__, str(ex)[:200], case=grp[0],
+                              predicate='returns (ra, dec) for finite directions')
+            continue
+        if [a.tobytes() for a in args] != before:
+            ctx.violation('rotate_signal_events_on_sphere', 'argument-modified', 'an argument array was changed', case=grp[0],
+                          predicate='arguments are inputs')
+        if any(np.shares_memory(r, a) for r in (ra, dec) for a in args):
+            ctx.violation('rotate_signal_events_on_sphere', 'result-aliases-argument',
+                          'a returned array shares memory with an argument (the events were not rotated into new arrays)',
+                          case=grp[0], predicate='results are new arrays')
+        for i, c in enumerate(grp):
+            c['impl'] = [float(ra[i]), float(dec[i])]
+            lines.append(hexline('rses', *(c[k] for k in keys)))
+            checks.append(c)
+            pred_rses(ctx, c, float(ra[i]), float(dec[i]))
+
+
+def rses_cond(c, dec_out):
+    """conditioning of the spherical-triangle solution: 1/cos(source dec) (longitude change) and 1/cos(dec_out) (arcsin)"""
+    return 1.0 / max(math.cos(c['src_dec']), 1e-17) + 1.0 / max(math.cos(dec_out), 1e-17)
+
+
+def rses_expected_z(c):
+    """sine of the latitude of the expected destination (cosine rule), from Python-float oracles"""
+    sig = vincenty(c['reco_ra'], c['reco_dec'], c['true_ra'], c['true_dec'])
+    dl = c['reco_ra'] - c['true_ra']
+    x = math.sin(c['reco_dec']) * math.cos(c['true_dec']) - math.cos(c['reco_dec']) * math.sin(c['true_dec']) * math.cos(dl)
+    y = math.sin(dl) * math.cos(c['reco_dec'])
+    pa = math.atan2(y, x)
+    return math.sin(c['src_dec']) * math.cos(sig) + math.cos(c['src_dec']) * math.sin(sig) * math.cos(pa)
+
+
+def pred_rses(ctx, c, ra, dec):
+    keys = ('src_ra', 'src_dec', 'true_ra', 'true_dec', 'reco_ra', 'reco_dec')
+    if not finite(*(c[k] for k in keys)):
+        return
+    site = 'rotate_signal_events_on_sphere'
+    if not (0.0 <= ra < TWOPI):
+        ctx.violation(site, 'ra-out-of-range', f'ra={ra!r}', case=c, impl=[ra, dec], predicate='0 <= ra < 2pi')
+    if math.isnan(dec) and abs(rses_expected_z(c)) >= 1.0 - 1e-12:
+        # astropy's offset_by takes arcsin of a cosine-rule value that exceeds 1 by rounding
+        ctx.count('rses:nan-at-pole')
+        ctx.violation(site, 'dec-nan-when-result-at-pole', f'dec={dec!r}', case=c, impl=[ra, dec],
+                      predicate='-pi/2 <= dec <= pi/2')
+    elif not (-HALFPI <= dec <= HALFPI):
+        ctx.violation(site, 'dec-out-of-range', f'dec={dec!r}', case=c, impl=[ra, dec], predicate='-pi/2 <= dec <= pi/2')
+    if not finite(ra, dec):
+        return
+    want = vincenty(c['reco_ra'], c['reco_dec'], c['true_ra'], c['true_dec'])
+    got = vincenty(ra, dec, c['src_ra'], c['src_dec'])
+    tol = 64 * EPS * rses_cond(c, dec) + 16 * EPS * (abs(c['src_ra']) + abs(c['true_ra']) + abs(c['reco_ra']))
+    if abs(got - want) > tol:
+        ctx.violation(site, 'separation-not-preserved', f'sep(rot(reco),src)={got!r} sep(reco,true)={want!r} tol={tol:.3g}',
+                      case=c, impl=[ra, dec], model=want, predicate='sep(rotated reco, source) == sep(reco, true)')
+
+
 def run_a2r(ctx, cases, lines, checks):
     from skyllh.i3.utils.coords import azi_to_ra_transform, ra_to_azi_transform, hor_to_equ_transform
     azi, zen, mjd = arr(cases, 'azi'), arr(cases, 'zen'), arr(cases, 'mjd')
@@ -613,6 +740,21 @@ def compare(ctx, checks, outs):
             tol = 128 * EPS * cond + 128 * EPS / max(math.cos(m[1]), 3e-8) + 64 * EPS * sum(abs(v) for v in ins)
             if d > tol:
                 ctx.disagree('coords.rot', c, imp, m, f'directions differ by {d:.3g} > {tol:.3g}')
+        elif f == 'rses':
+            m = parse(next(it))
+            imp = c['impl']
+            keys = ('src_ra', 'src_dec', 'true_ra', 'true_dec', 'reco_ra', 'reco_dec')
+            if not finite(*(c[k] for k in keys)) or not finite(*m) or not finite(*imp):
+                if finite(*m) != finite(*imp):
+                    if finite(*(c[k] for k in keys)) and abs(rses_expected_z(c)) >= 1.0 - 1e-12:
+                        ctx.count('corr:rses-nan-at-pole')      # arcsin of 1 +- ulp: NaN or pi/2 depending on the last bit
+                    else:
+                        ctx.disagree('coords.rses', c, imp, m, 'finite / non-finite result differs')
+                continue
+            d = vincenty(imp[0], imp[1], m[0], m[1])
+            tol = 32 * EPS * rses_cond(c, m[1]) + 16 * EPS * sum(abs(c[k]) for k in keys)
+            if d > tol:
+                ctx.disagree('coords.rses', c, imp, m, f'directions differ by {d:.3g} > {tol:.3g}')
         elif f == 'a2r':
             m1 = parse(next(it))
             m2 = parse(next(it))
@@ -684,9 +826,23 @@ def _dir_close(ra_a, dec_a, ra_b, dec_b, tol=1e-6):
 
 
 def _hist_funcs():
-    from skyllh.core.utils.coords import angular_separation, rotate_spherical_vector
+    from skyllh.core.utils.coords import angular_separation, rotate_spherical_vector, rotate_signal_events_on_sphere
     from skyllh.i3.utils.coords import azi_to_ra_transform, ra_to_azi_transform, hor_to_equ_transform
     from skyllh.analyses.i3.publicdata_ps.utils import psi_to_dec_and_ra
+
+    def f_rses(*a):
+        (ra, dec) = rotate_signal_events_on_sphere(*a)
+        return (ra, dec)
+
+    def o_rses(a, r):
+        for i in range(len(a[0])):
+            (ra, dec) = (float(r[0][i]), float(r[1][i]))
+            if not (0.0 <= ra < TWOPI and -HALFPI <= dec <= HALFPI):
+                return f'element {i}: ({ra!r}, {dec!r}) out of range'
+            got = vincenty(ra, dec, a[0][i], a[1][i])
+            want = vincenty(a[4][i], a[5][i], a[2][i], a[3][i])
+            if not abs(got - want) <= 1e-9:
+                return f'element {i}: separation from the source {got!r} != separation reco-true {want!r}'
 
     def f_sep(ra1, d1, ra2, d2, fl):
         return (angular_separation(ra1, d1, ra2, d2, psi_floor=fl),)
@@ -746,6 +902,7 @@ def _hist_funcs():
     return {
         'angular_separation': (f_sep, o_sep, 'scalar'),
         'rotate_spherical_vector': (f_rot, o_rot, 'dirs'),
+        'rotate_signal_events_on_sphere': (f_rses, o_rses, 'dirs'),
         'azi_to_ra_transform': (f_a2r, o_a2r, 'ra'),
         'ra_to_azi_transform': (f_r2a, o_a2r, 'ra'),
         'hor_to_equ_transform': (f_h2e, o_h2e, 'radec'),
@@ -766,6 +923,10 @@ def _hist_args(site, rng, n, base=None, edge=False):
         ra1, d1 = u(0.0, TWOPI), u(-1.0, 1.0)
         ra2, d2 = ra1 + u(0.4, 1.5), np.clip(d1 + u(-0.3, 0.3), -1.2, 1.2)
         a = [ra1, d1, ra2, d2, u(-0.5, TWOPI), u(-1.2, 1.2)]
+    elif site == 'rotate_signal_events_on_sphere':
+        sra, sdec = u(0.0, TWOPI), u(-1.2, 1.2)
+        tra, tdec = u(0.0, TWOPI), u(-1.2, 1.2)
+        a = [sra, sdec, tra, tdec, tra + u(-0.2, 0.2), np.clip(tdec + u(-0.2, 0.2), -1.4, 1.4)]
     elif site in ('azi_to_ra_transform', 'ra_to_azi_transform'):
         a = [u(0.0, TWOPI), u(40000.0, 75000.0)]
         if n > 1:
@@ -786,6 +947,13 @@ def _hist_args(site, rng, n, base=None, edge=False):
             a[4][:4] = [-0.5, TWOPI + 0.25, 0.0, TWOPI]
             a[5][:4] = [HALFPI, -HALFPI, 0.0, 1.0]
             a[0][4], a[2][5] = a[0][4] + TWOPI, a[2][5] - TWOPI
+        elif site == 'rotate_signal_events_on_sphere':
+            # every true direction within np.allclose of its source (whole-batch shortcuts), RA outside [0, 2pi)
+            a[2][:] = a[0] * (1 + 4e-6)
+            a[3][:] = a[1] * (1 - 3e-6)
+            a[4][:] = a[2] + 1e-3
+            a[5][:] = np.clip(a[3] - 2e-3, -1.4, 1.4)
+            a[0][0], a[4][1] = a[0][0] + TWOPI, a[4][1] - TWOPI
         elif site in ('azi_to_ra_transform', 'ra_to_azi_transform'):
             a[0][:3] = [0.0, math.nextafter(TWOPI, 0.0), PI]
             a[1][:3] = [58457.0, 40000.0, 75000.0]
@@ -1056,6 +1224,8 @@ def execute(ctx, cases, rng, tdm_groups):
         run_tdm(ctx, rng, lines, checks, tdm_groups)
     if by.get('rot'):
         run_rot(ctx, by['rot'], lines, checks)
+    if by.get('rses'):
+        run_rses(ctx, by['rses'], lines, checks)
     if by.get('a2r'):
         run_a2r(ctx, by['a2r'], lines, checks)
     if by.get('p2d'):
@@ -1091,6 +1261,8 @@ def run(ctx):
         cases.append(gen_a2r(ctx, rng))
     for _ in range(3000 * mult):
         cases.append(gen_p2d(ctx, rng))
+    for g in range(250 * mult):
+        cases.extend(gen_rses_group(ctx, rng, g))
     if ctx.thorough():
         ras = [0.0, HALFPI, PI, 3 * HALFPI, 1.0]
         decs = [-HALFPI, -PI / 4, 0.0, PI / 4, HALFPI]
